@@ -1,4 +1,6 @@
 import SlotVerif.Model.Analysis
+import SlotVerif.Props.C06
+import SlotVerif.Model.SnapInv
 /-!
 # C14 — Analysis data is the fixpoint of make/merge over each class
 
@@ -7,6 +9,11 @@ predicate on a dumped state).  Proved: the merges are semilattice joins (the hyp
 property), the join over a class's e-nodes does not depend on their order, and it is a lower bound
 of every e-node's `make`.  That the implementation's data *is* this join after every public
 operation is validated per run on the dumped state (every class, not a sample).
+`minsize_datum_is_min`: **on every state whose min-size data pass the join-fixpoint predicate, the datum of each
+live class is the size of a smallest term the class represents** — it is attained by an extraction tree and no
+extraction tree of the class is smaller (through the verified cost-table checker of C06: the data of a fixpoint
+state *are* a table that `checkTable` accepts, `fixpoint_checks`).  So the per-run comparison "datum = extractor's
+best cost" compares two values that are both proved to be the minimum.
 -/
 namespace SV.C14
 open SV SV.Analysis
@@ -89,6 +96,242 @@ theorem joinL_le_each (l : List Data) (x : Nat) (hx : some x ∈ l) :
       cases a with
       | none => exact ⟨d, by simp [merge], hle⟩
       | some y => exact ⟨min y d, by simp [merge], Nat.le_trans (Nat.min_le_right _ _) hle⟩
+
+/-! ### the min-size fixpoint is the minimum AST size -/
+
+open Extract in
+/-- the data of the live classes as a cost table -/
+def dataTable (s : Snap) : Extract.Table :=
+  s.classes.filterMap fun c =>
+    if s.isAlive c.id then (parseData .minSize c.data).map fun d => (c.id, d) else none
+
+/-- structural facts about the dumped state that `Snap.checkInv` establishes when nothing is pending: class ids are
+unique and the children of live classes' nodes are live -/
+structure Tidy (s : Snap) : Prop where
+  ids : (s.classes.map (·.id)).Nodup
+  kids : ∀ c ∈ s.classes, s.isAlive c.id = true → ∀ e ∈ c.nodes, ∀ a ∈ Node.appOcc e.1, s.isAlive a.id = true
+
+theorem find_of_nodup : ∀ (l : List SClass), (l.map (·.id)).Nodup → ∀ c ∈ l, l.find? (·.id == c.id) = some c
+  | [], _, c, hc => by simp at hc
+  | a :: t, hn, c, hc => by
+    simp only [List.map_cons, List.nodup_cons] at hn
+    simp only [List.mem_cons] at hc
+    rw [List.find?_cons]
+    rcases hc with hc | hc
+    · subst hc; simp
+    · have : a.id ≠ c.id := fun he => hn.1 (he ▸ List.mem_map.mpr ⟨c, hc, rfl⟩)
+      have hb : (a.id == c.id) = false := by simpa using this
+      rw [hb]; exact find_of_nodup t hn.2 c hc
+
+theorem cls_of_mem {s : Snap} (h : Tidy s) {c : SClass} (hc : c ∈ s.classes) : s.cls c.id = some c :=
+  find_of_nodup s.classes h.ids c hc
+
+theorem table_get_aux (F : SClass → Option (Nat × Nat)) (hF : ∀ c p, F c = some p → p.1 = c.id) (i : Nat) :
+    ∀ (l : List SClass), (l.map (·.id)).Nodup →
+      ((l.filterMap F).find? (·.1 == i)).map (·.2) = ((l.find? (·.id == i)).bind F).map (·.2)
+  | [], _ => rfl
+  | a :: t, hn => by
+    simp only [List.map_cons, List.nodup_cons] at hn
+    rw [List.filterMap_cons, List.find?_cons]
+    by_cases hai : a.id = i
+    · have hb : (a.id == i) = true := by simpa using hai
+      rw [hb]
+      simp only [Option.bind_some]
+      cases hFa : F a with
+      | some p =>
+        simp only
+        rw [List.find?_cons]
+        have : (p.1 == i) = true := by rw [hF a p hFa]; exact hb
+        rw [this]
+      | none =>
+        simp only [Option.map_none]
+        have : (t.filterMap F).find? (·.1 == i) = none := by
+          rw [List.find?_eq_none]
+          intro p hp hpi
+          obtain ⟨c, hc, hFc⟩ := List.mem_filterMap.mp hp
+          have : c.id = i := by rw [← hF c p hFc]; simpa using hpi
+          exact hn.1 (by rw [hai, ← this]; exact List.mem_map.mpr ⟨c, hc, rfl⟩)
+        rw [this]; rfl
+    · have hb : (a.id == i) = false := by simpa using hai
+      rw [hb]
+      cases hFa : F a with
+      | some p =>
+        simp only
+        rw [List.find?_cons]
+        have : (p.1 == i) = false := by rw [hF a p hFa]; exact hb
+        rw [this]; exact table_get_aux F hF i t hn.2
+      | none => simp only; exact table_get_aux F hF i t hn.2
+
+/-- the table holds, for a live class, exactly its datum -/
+theorem dataTable_get {s : Snap} (h : Tidy s) (i : Nat) (ha : s.isAlive i = true) :
+    Extract.Table.get (dataTable s) i = dataOf .minSize s i := by
+  unfold Extract.Table.get dataTable dataOf Snap.cls
+  rw [table_get_aux _ _ i s.classes h.ids]
+  · cases hf : s.classes.find? (·.id == i) with
+    | none => rfl
+    | some c =>
+      have hci : c.id = i := by simpa using List.find?_some hf
+      simp only [Option.bind_some, hci, ha, if_true]
+      cases parseData .minSize c.data <;> rfl
+  · intro c p hp
+    split at hp
+    · cases hd : parseData .minSize c.data with
+      | none => rw [hd] at hp; simp at hp
+      | some d => rw [hd] at hp; simp at hp; rw [← hp]
+    · simp at hp
+
+theorem dataTable_alive {s : Snap} {p : Nat × Nat} (hp : p ∈ dataTable s) :
+    ∃ c ∈ s.classes, c.id = p.1 ∧ s.isAlive c.id = true ∧ parseData .minSize c.data = some p.2 := by
+  unfold dataTable at hp
+  obtain ⟨c, hc, hF⟩ := List.mem_filterMap.mp hp
+  split at hF
+  · rename_i ha
+    cases hd : parseData .minSize c.data with
+    | none => rw [hd] at hF; simp at hF
+    | some d => rw [hd] at hF; simp at hF; exact ⟨c, hc, by rw [← hF], ha, by rw [← hF]; exact hd⟩
+  · simp at hF
+
+theorem mapM_map_id {α} (f : α → Option Nat) : ∀ (l : List α), (l.map f).mapM id = l.mapM f
+  | [] => rfl
+  | a :: t => by simp only [List.map_cons, List.mapM_cons, mapM_map_id f t]; rfl
+
+/-- `make` of a node of a live class is the AST cost of the node over the table -/
+theorem make_eq_cost {s : Snap} (h : Tidy s) {c : SClass} (hc : c ∈ s.classes) (ha : s.isAlive c.id = true)
+    {e : Node × SlotMap} (he : e ∈ c.nodes) :
+    make .minSize e.1 ((Node.appOcc e.1).map fun a => dataOf .minSize s a.id) =
+      (Extract.kidCosts (dataTable s) e.1).map (Extract.nodeCost .ast e.1.v) := by
+  unfold make Extract.kidCosts
+  simp only
+  rw [mapM_map_id]
+  have : (Node.appOcc e.1).mapM (fun a => dataOf .minSize s a.id) =
+      (Node.appOcc e.1).mapM (fun a => Extract.Table.get (dataTable s) a.id) := by
+    have hk := h.kids c hc ha e he
+    generalize Node.appOcc e.1 = l at hk
+    induction l with
+    | nil => rfl
+    | cons a t ih =>
+      simp only [List.mapM_cons]
+      rw [dataTable_get h a.id (hk a (by simp)), ih (fun b hb => hk b (by simp [hb]))]
+  rw [this]
+  rfl
+
+theorem joinL_cons (a : Data) (t : List Data) : joinL .minSize (a :: t) = merge .minSize a (joinL .minSize t) := by
+  unfold joinL
+  simp only [List.foldl_cons]
+  rw [foldl_merge_min_init]
+  cases a <;> simp [merge]
+
+/-- the join is attained by one of the joined data -/
+theorem joinL_attained : ∀ (l : List Data) (k : Nat), joinL .minSize l = some k → some k ∈ l
+  | [], k, h => by simp [joinL] at h
+  | a :: t, k, h => by
+    rw [joinL_cons] at h
+    cases a with
+    | none =>
+      have : joinL .minSize t = some k := by simpa [merge] using h
+      exact List.mem_cons_of_mem _ (joinL_attained t k this)
+    | some x =>
+      cases ht : joinL .minSize t with
+      | none => rw [ht] at h; simp [merge] at h; simp [h]
+      | some y =>
+        rw [ht] at h
+        simp only [merge, Option.some.injEq] at h
+        by_cases hxy : x ≤ y
+        · have : x = k := by rw [← h]; exact (Nat.min_eq_left hxy).symm
+          simp [this]
+        · have : y = k := by rw [← h]; exact (Nat.min_eq_right (by omega)).symm
+          exact List.mem_cons_of_mem _ (joinL_attained t k (by rw [ht, this]))
+
+theorem joinOfClass_eq (s : Snap) (c : SClass) :
+    joinOfClass .minSize s c =
+      joinL .minSize (c.nodes.map fun e => make .minSize e.1 ((Node.appOcc e.1).map fun a => dataOf .minSize s a.id)) := by
+  unfold joinOfClass joinL
+  rw [List.foldl_map]
+
+/-- **the data of a min-size fixpoint state are a cost table that the verified checker of C06 accepts** -/
+theorem fixpoint_checks {s : Snap} (h : Tidy s) (hfix : isFixpoint .minSize s = true) :
+    Extract.checkTable .ast s (dataTable s) = true := by
+  unfold isFixpoint at hfix
+  simp only [List.all_eq_true, Bool.or_eq_true, Bool.not_eq_true', beq_iff_eq] at hfix
+  unfold Extract.checkTable
+  simp only [Bool.and_eq_true, List.all_eq_true, Bool.or_eq_true, Bool.not_eq_true']
+  constructor
+  · intro c hc
+    by_cases ha : s.isAlive c.id = true
+    · right
+      intro e he
+      have hmk := make_eq_cost h hc ha he
+      cases hk : Extract.kidCosts (dataTable s) e.1 with
+      | none => rfl
+      | some ks =>
+        simp only
+        rw [hk] at hmk
+        simp only [Option.map_some] at hmk
+        have hd : parseData .minSize c.data = joinOfClass .minSize s c := by
+          rcases hfix c hc with h' | h'
+          · rw [h'] at ha; simp at ha
+          · exact h'
+        rw [joinOfClass_eq] at hd
+        obtain ⟨d, hdj, hle⟩ := joinL_le_each
+          (c.nodes.map fun e => make .minSize e.1 ((Node.appOcc e.1).map fun a => dataOf .minSize s a.id))
+          (Extract.nodeCost .ast e.1.v ks) (List.mem_map.mpr ⟨e, he, hmk⟩)
+        rw [dataTable_get h c.id ha]
+        unfold dataOf
+        rw [cls_of_mem h hc]
+        simp only [Option.bind_some]
+        rw [hd, hdj]
+        simpa using hle
+    · left; simpa using ha
+  · intro p hp
+    obtain ⟨c, hc, hid, ha, hd⟩ := dataTable_alive hp
+    rw [← hid, ha, cls_of_mem h hc]
+    simp only [List.any_eq_true]
+    refine ⟨by decide, ?_⟩
+    have hj : joinOfClass .minSize s c = some p.2 := by
+      rcases hfix c hc with h' | h'
+      · rw [h'] at ha; simp at ha
+      · rw [← h']; exact hd
+    rw [joinOfClass_eq] at hj
+    obtain ⟨e, he, hme⟩ := List.mem_map.mp (joinL_attained _ _ hj)
+    rw [make_eq_cost h hc ha he] at hme
+    refine ⟨e, he, ?_⟩
+    cases hk : Extract.kidCosts (dataTable s) e.1 with
+    | none => rw [hk] at hme; simp at hme
+    | some ks => rw [hk] at hme; simpa using hme
+
+/-- **the min-size datum is the size of a smallest represented term**: attained by an extraction tree of the class,
+and a lower bound for all of them -/
+theorem minsize_datum_is_min {s : Snap} (h : Tidy s) (hfix : isFixpoint .minSize s = true) {i k : Nat}
+    (ha : s.isAlive i = true) (hd : dataOf .minSize s i = some k) :
+    (∃ T, C06.wfTree s T = true ∧ T.root = i ∧ C06.treeCost .ast s T = k) ∧
+    (∀ T, C06.wfTree s T = true → T.root = i → k ≤ C06.treeCost .ast s T) :=
+  C06.table_is_min (fixpoint_checks h hfix) (by rw [dataTable_get h i ha]; exact hd)
+
+/-- `Tidy` follows from the snapshot invariant of C08 when nothing is pending (class ids come from a map keyed by id) -/
+theorem tidy_of_inv {s : Snap} (h : Snap.checkInv s = true) (hp : s.pending = [])
+    (hn : (s.classes.map (·.id)).Nodup) : Tidy s where
+  ids := hn
+  kids := fun c hc _ e he a ha => by
+    unfold Snap.checkInv at h
+    simp only [Bool.and_eq_true, List.all_eq_true] at h
+    have hcO := (h.2 c hc).2
+    rw [hp] at hcO
+    simp only [List.isEmpty_nil, forall_const, decide_eq_true_eq] at hcO
+    unfold Snap.childrenOK at hcO
+    simp only [List.all_eq_true, Bool.and_eq_true] at hcO
+    exact ((hcO e he a ha).1).1
+
+/-- non-vacuity: a two-class state with min-size data 1 and 2 is tidy and a fixpoint; its data are the minimum sizes -/
+def demo : Snap :=
+  { uf := [⟨0, []⟩, ⟨1, []⟩],
+    classes := [
+      { id := 0, slots := [], nodes := [(⟨16, [.lit "a"]⟩, [])], gens := [], syn := ⟨16, [.lit "a"]⟩, data := "1" },
+      { id := 1, slots := [], nodes := [(⟨13, [.app ⟨0, []⟩]⟩, []), (⟨4, [.app ⟨1, []⟩, .app ⟨0, []⟩]⟩, [])], gens := [],
+        syn := ⟨13, [.app ⟨0, []⟩]⟩, data := "2" }] }
+-- evaluated, not kernel-reduced (`String.toNat?` on the data strings does not reduce in the kernel): a test of the premises
+#guard isFixpoint .minSize demo && Snap.checkInv demo && dataOf .minSize demo 1 == some 2 &&
+  Extract.checkTable .ast demo (dataTable demo)
+example : (demo.classes.map (·.id)).Nodup ∧ demo.pending = [] := by decide
 
 /-- non-vacuity: `make`/`merge` on concrete data -/
 example : make .minSize ⟨4, [.app ⟨0, []⟩, .app ⟨1, []⟩]⟩ [some 3, some 5] = some 9 ∧
